@@ -33,6 +33,9 @@ func c07Replay(c json.RawMessage) Verdict {
 	if e != "" {
 		return bad("could not build the table: %s", e)
 	}
+	if (cs.Id+len(cs.Pat))%2 == 0 { // the same table laid out in another order
+		t = shuffleTable(t, int64(cs.Id*7+len(cs.Pat)))
+	}
 	return c07CheckTable(t, cs.Id, cs.Pat, cs.W, cs.Elig, c07Draws())
 }
 
@@ -190,11 +193,13 @@ func c07Record(tier string, seed int64, emit func(interface{})) {
 func c07SessionReplay(c json.RawMessage) Verdict {
 	type step struct {
 		W    sparse
+		How  string
 		Used bool
 	}
 	var cs struct {
 		Id   int
 		Hist []step
+		How  string
 		W    sparse
 		Elig map[string]json.RawMessage
 	}
@@ -213,8 +218,20 @@ func c07SessionReplay(c json.RawMessage) Verdict {
 	// the live table: its own backing arrays (KF-C08-1 is about the shared defaults), kept for the whole history
 	t := roundtrip(codon.GetCodonTable(cs.Id), false)
 	_, letter, _ := projectTable(t)
+	// re-weighting in place: through the library's call, or by assigning the exported Weight fields
+	reweight := func(how string, w sparse) {
+		if how == "fields" {
+			for i := range t.AminoAcids {
+				for j := range t.AminoAcids[i].Codons {
+					t.AminoAcids[i].Codons[j].Weight = w.at(t.AminoAcids[i].Codons[j].Triplet)
+				}
+			}
+			return
+		}
+		t = t.OptimizeTable(coding(w))
+	}
 	for _, st := range cs.Hist {
-		t = t.OptimizeTable(coding(st.W))
+		reweight(st.How, st.W)
 		if st.Used {
 			w, _, _ := projectTable(t)
 			if ls := encodableLetters(letter, w); len(ls) > 0 {
@@ -224,7 +241,7 @@ func c07SessionReplay(c json.RawMessage) Verdict {
 			}
 		}
 	}
-	t = t.OptimizeTable(coding(cs.W))
+	reweight(cs.How, cs.W)
 	got, _, perr := projectTable(t)
 	if perr != "" {
 		return bad("session table: %s", perr)
@@ -236,7 +253,7 @@ func c07SessionReplay(c json.RawMessage) Verdict {
 	}
 	n := 3000
 	if os.Getenv("VERIF_TIER_INTERNAL") == "thorough" {
-		n = 5000
+		n = 2000 // 21,636 histories in the thorough tier
 	}
 	v := c07CheckTable(t, cs.Id, fmt.Sprintf("after %d earlier re-weightings", len(cs.Hist)), cs.W, cs.Elig, n)
 	if v.V != "ok" {
